@@ -7,7 +7,8 @@ import RasnModel.Link.Values
 
   What the code does, arm by arm:
   * `LinkedNestedValue { supertypes, value }`: the value is rendered with the SAME type name and then wrapped,
-    `nester` popping the names from the end — `[A, B]` gives `A(B(v))`;
+    `nester` popping the names from the end — `[A, B]` gives `A(B(v))`; when the value is a struct value, the last
+    name is the struct's own: it names the constructor and is not a wrapper — `[A, B]` gives `A(B::new(..))`;
   * `LinkedStructLikeValue(fields)`: needs a type name (else "A type name is needed …"); every field is rendered
     with the name of ITS type (`type_to_tokens(ty).ok()`: a reference has one, an inline SEQUENCE / SET / CHOICE has
     none, a built-in type or a list has one that no composite arm looks at), positionally: `T::new(a, b, …)`;
@@ -56,7 +57,12 @@ variable (title enumId : String → String)
 mutual
 def render (ty : VTy) (tn : Option String) : LVal → Option RExpr
   | .atom a => some (.lit a)
-  | .nested sup v => (render ty tn v).map (nest title sup)
+  | .nested sup v =>
+    -- since fix `9a8438f`: a struct value is built by the `new` of the struct the chain ends in — the last
+    -- name is the struct's own and names the constructor; it is not a wrapper
+    match v with
+    | .struct _ => (render ty ((sup.getLast?.map title).orElse (fun _ => tn)) v).map (nest title sup.dropLast)
+    | _ => (render ty tn v).map (nest title sup)
   | .arr xs =>
     match core ty with
     | .seqOf e => (renderElems e xs).map .vec
@@ -100,7 +106,10 @@ def wrapName (name : Option String) (e : RExpr) : RExpr :=
     `v SEQUENCE OF … ::= …` (`name = none`, `body` the type itself) -/
 def renderAssignment (name : Option String) (body : VTy) : LVal → Option RExpr
   | .struct fs => render title enumId body (name.map title) (.struct fs)
-  | .choice a v => render title enumId body (name.map title) (.choice a v)
+  | .choice a v =>
+    -- behind a reference the linker leaves a `LinkedNestedValue` (its last name popped for the enum): the wrapper arm
+    if (strip body).1.isEmpty then render title enumId body (name.map title) (.choice a v)
+    else (render title enumId body none (.choice a v)).map (wrapName title name)
   | .nested sup v => (render title enumId body (sup.getLast?.map title) (.nested sup v)).map (wrapName title name)
   | .arr xs => (render title enumId body none (.arr xs)).map (wrapName title name)
   | .atom _ => none        -- the leaf arms (`generate_integer_value`, the primitive templates) are not modelled
